@@ -34,6 +34,8 @@ def cases(tier, seed):
         yield {"fam": "rand", "i": i}
     for i in range(270 if tier == "quick" else 2700):
         yield {"fam": "paircode", "i": i}
+    for i in range(6 if tier == "quick" else 48):
+        yield {"fam": "huge_labels", "i": i}
 
 
 def setup(ctx):
@@ -85,6 +87,22 @@ def judge(ctx, pred, refa, cfg):
 def run(case, ctx):
     fam, i = case["fam"], case["i"]
     r = gen.rng(ctx.seed, "c11", fam, i)
+    if fam == "huge_labels":
+        r = gen.rng(ctx.seed, "c11huge", i)
+        dtype = [np.uint32, np.uint64][i % 2]
+        pl = [int(x) for x in r.choice(np.arange(2**24, 2**24 + 2**20), size=3, replace=False)]
+        rl = [int(x) for x in r.choice(np.arange(2**24, 2**24 + 2**20), size=3, replace=False)]
+        refa = np.zeros(30, dtype=dtype)
+        pred = np.zeros(30, dtype=dtype)
+        for k in range(3):  # overlaps of different quality, so that score order and label order disagree
+            refa[10 * k : 10 * k + 8] = rl[k]
+            pred[10 * k + k + 1 : 10 * k + 8] = pl[k]
+        cfg = {"input": "UNMATCHED_INSTANCE", "matcher": {"kind": "naive", "metric": "IOU", "thr": 0.3, "m2o": False}}
+        ctx.count("f:family.labels_beyond_2^24")
+        a = judge(ctx, pred, refa, cfg)
+        if a:
+            ctx.nontrivial(gen.arr_key(pred, refa), cfg)
+        return
     if fam == "paircode":
         pred, refa = gen.paircode_boundary_pair(ctx.seed, i)
         cfg = {"input": "UNMATCHED_INSTANCE", "matcher": {"kind": "naive", "metric": ["IOU", "DSC"][i % 2], "thr": 0.5, "m2o": False}}
